@@ -185,3 +185,24 @@ PROPS['C05'] = dict(
     assumptions=['variance of key rows is stored once and comes back as the common maximum (allowed by the statement)', 'key sets need N=1024 because import recomputes the FFT image'],
     jobs=_c05, max_report=12,
 )
+
+# ------------------------------------------------------------------------------------------------ C18
+ASAN_INPROC = {'ASAN_OPTIONS': 'detect_leaks=0:abort_on_error=1:halt_on_error=1:handle_segv=0:handle_abort=0:handle_sigbus=0:allocator_may_return_null=1'}
+def _c18(tier, seed):
+    if tier == 'quick':
+        return J('c18.cpp', 'optim', 'spqlios-fma', n=8) + J('c18.cpp', 'asan-debug', 'nayuki-portable', n=8, args=['inproc=1'], env=ASAN_INPROC, crash_is_violation=True)
+    jobs = J('c18.cpp', 'optim', 'spqlios-fma', n=4) + J('c18.cpp', 'asan-debug', 'nayuki-portable', n=8, args=['inproc=1'], env=ASAN_INPROC, crash_is_violation=True) + J('c18.cpp', 'asan', 'spqlios-fma', n=8, args=['inproc=1'], env=ASAN_INPROC, crash_is_violation=True)
+    jobs += J('c18.cpp', 'debug', 'fftw', n=4)
+    return jobs
+PROPS['C18'] = dict(
+    level='fault_enumeration',
+    rule='cases = (type, transport, prefix length) for every proper prefix of every export (every crash point of the writer); (type, transport, offset, replacement byte) for every byte of every title line '
+         'and binary type tag x {0x00,0xFF,b+1,b-1,newline}; (type A, importer B != A, transport) substitutions. each import in a forked child. violation = normal return (clean stream) with an object that is not a '
+         'faithful complete image of the bytes consumed, or a heap/stack overflow / use-after-free reported by ASan. every case is non-trivial (a fault is injected in each)',
+    bounds={'quick': '15 types x 2 transports, every byte offset for exports <= 64 KB (13 types, n=3,N=2,k=1,l=1,t=2,basebit=1), boundary neighbourhoods + stride 509 for the two key sets (N=1024); 15x14 substitutions; optim (fork per case) + asan-debug (in-process, abort/null-fault unwound by longjmp)',
+            'thorough': 'the full enumeration (incl. key sets) on optim/spqlios-fma, asan-debug/nayuki-portable, debug/fftw'},
+    assumptions=['a null-page SIGSEGV (importers dereference the NULL the text parser returns at end of input) and abort() are terminations, which the property allows',
+                 'a prefix that only lacks the final newline of a text-only object is a complete object'],
+    min_outcomes=3,
+    jobs=_c18, max_report=12,
+)
